@@ -114,6 +114,8 @@ type SyncEvent struct {
 
 // Net is the in-memory network.
 type Net struct {
+	// AltEpoch, when set, names a second epoch whose members' partials may justify a Put (see CheckThreshold).
+	AltEpoch func(nd *Node, put *PutEvent) *fx.Net
 	Cfg   Config
 	Fx    *fx.Net
 	Live  *fx.Net // epoch whose polynomial is live (changes at reshare)
